@@ -74,7 +74,7 @@ pub fn check_table(sim: &Sim) {
         return;
     }
     // live adapters: presence is checked by fd (their interest mask changes with every await)
-    let live_ad: Vec<u64> = st.adapters.values().filter(|a| matches!(a.state, crate::adapter::AdState::Held | crate::adapter::AdState::InTask(_))).filter_map(|a| a.key).collect();
+    let live_ad: Vec<u64> = st.adapters.values().filter(|a| crate::adapter::alive(a.state)).filter_map(|a| a.key).collect();
     // composite sources: several sub-tokens whose allocation the model does not predict
     let comp_keys: Vec<u64> = st.srcs.values().filter(|s| matches!(s.k, K::Comp(_))).filter_map(|s| s.reg_key.map(|k| k as u64)).collect();
     let actual: Vec<os::EpollEntry> = os::epoll_table(epfd).into_iter().filter(|e| e.data != u64::MAX && !live_ad.contains(&e.data) && !comp_keys.contains(&(e.data & !0xFFFF))).collect();
